@@ -86,6 +86,9 @@ func (cs *coreState) infeasibleSearchMiss(from, to *ssa.BasicBlock) bool {
 	if !ok {
 		return false
 	}
+	if cs.missFlagEdge(ifi, from, to) {
+		return true
+	}
 	b, ok := ifi.Cond.(*ssa.BinOp)
 	if !ok {
 		return false
@@ -118,10 +121,13 @@ func (cs *coreState) infeasibleSearchMiss(from, to *ssa.BasicBlock) bool {
 	if to != miss {
 		return false
 	}
-	// presence of the searched key established: a comma-ok lookup of the same key on Data is known true here
-	key := c.Call.Args[1]
+	return cs.presenceKnown(from, c.Call.Args[1])
+}
+
+// presenceKnown: a comma-ok lookup of key on Data/refs is known to have succeeded when control is at block `at`.
+func (cs *coreState) presenceKnown(at *ssa.BasicBlock, key ssa.Value) bool {
 	known := false
-	for _, cd := range condsAt(from) {
+	for _, cd := range condsAt(at) {
 		cd = normCond(cd)
 		ex, ok := cd.V.(*ssa.Extract)
 		if !ok || !cd.Val || ex.Index != 1 {
@@ -611,4 +617,145 @@ func c03R7(e *Engine) {
 			}
 		}
 	}
+}
+
+// missFlag describes a slice helper that reports "the searched key was not in the list" through a boolean result:
+// removeSorted(keys, key) ([]string, bool). The flag has value missVal exactly on the returns reached through the miss
+// edge of a pos==len(keys) test with pos = SearchStrings(keys, key).
+type missFlag struct {
+	sliceParam, keyParam, result int
+	missVal                      bool
+}
+
+func searchMissFlagOf(g *ssa.Function) *missFlag {
+	if g == nil || g.Blocks == nil || g.Signature.Results().Len() < 2 {
+		return nil
+	}
+	for ri := 1; ri < g.Signature.Results().Len(); ri++ {
+		if b, ok := g.Signature.Results().At(ri).Type().Underlying().(*types.Basic); !ok || b.Kind() != types.Bool {
+			continue
+		}
+		// the search test
+		var test *ssa.If
+		var miss *ssa.BasicBlock
+		var sp, kp = -1, -1
+		instrs(g, func(in ssa.Instruction) {
+			ifi, ok := in.(*ssa.If)
+			if !ok || test != nil {
+				return
+			}
+			b, ok := ifi.Cond.(*ssa.BinOp)
+			if !ok {
+				return
+			}
+			bx, by, bop := b.X, b.Y, b.Op
+			if sc, isC := strip(by).(*ssa.Call); isC && staticCalleeName(sc) == "sort.SearchStrings" {
+				bx, by, bop = by, bx, flipOp(bop)
+			}
+			c, ok := strip(bx).(*ssa.Call)
+			if !ok || staticCalleeName(c) != "sort.SearchStrings" {
+				return
+			}
+			lc, ok := by.(*ssa.Call)
+			if !ok || staticCalleeName(lc) != "builtin.len" || strip(lc.Call.Args[0]) != strip(c.Call.Args[0]) {
+				return
+			}
+			ps, okS := strip(c.Call.Args[0]).(*ssa.Parameter)
+			pk, okK := strip(c.Call.Args[1]).(*ssa.Parameter)
+			if !okS || !okK {
+				return
+			}
+			for i, p := range g.Params {
+				if p == ps {
+					sp = i
+				}
+				if p == pk {
+					kp = i
+				}
+			}
+			switch bop {
+			case token.EQL, token.GEQ:
+				test, miss = ifi, ifi.Block().Succs[0]
+			case token.LSS, token.NEQ:
+				test, miss = ifi, ifi.Block().Succs[1]
+			}
+		})
+		if test == nil || sp < 0 || kp < 0 {
+			continue
+		}
+		// flag values on the returns: constant everywhere, one value on the miss side, the other elsewhere
+		okAll := true
+		var missVal, haveMiss, haveHit bool
+		for _, r := range returnsOf(g) {
+			v, isC := constBool(retVals(r)[ri])
+			if !isC {
+				okAll = false
+				break
+			}
+			onMiss := (r.Block() == miss || miss.Dominates(r.Block())) && reachesOnlyVia(test.Block(), miss, r.Block())
+			if onMiss {
+				if haveMiss && v != missVal {
+					okAll = false
+				}
+				missVal, haveMiss = v, true
+			} else {
+				if haveHit && v != !missVal && haveMiss {
+					okAll = false
+				}
+				haveHit = true
+				if haveMiss && v == missVal {
+					okAll = false
+				}
+			}
+		}
+		// second pass for hits seen before the miss value was known
+		if okAll && haveMiss {
+			for _, r := range returnsOf(g) {
+				v, _ := constBool(retVals(r)[ri])
+				onMiss := (r.Block() == miss || miss.Dominates(r.Block())) && reachesOnlyVia(test.Block(), miss, r.Block())
+				if onMiss != (v == missVal) {
+					okAll = false
+				}
+			}
+		}
+		if okAll && haveMiss && haveHit {
+			return &missFlag{sp, kp, ri, missVal}
+		}
+	}
+	return nil
+}
+
+// missFlagEdge: the branch tests the not-found flag of such a helper applied to a key list of the model, the edge is the
+// "not found" side, and the key is known to be present (so, under I1/I2, it is in the list).
+func (cs *coreState) missFlagEdge(ifi *ssa.If, from, to *ssa.BasicBlock) bool {
+	cond, neg := ifi.Cond, false
+	for {
+		if u, ok := cond.(*ssa.UnOp); ok && u.Op == token.NOT {
+			cond, neg = u.X, !neg
+			continue
+		}
+		break
+	}
+	ex, ok := cond.(*ssa.Extract)
+	if !ok {
+		return false
+	}
+	c, ok := ex.Tuple.(*ssa.Call)
+	if !ok {
+		return false
+	}
+	mf := searchMissFlagOf(c.Call.StaticCallee())
+	if mf == nil || mf.result != ex.Index || mf.sliceParam >= len(c.Call.Args) || mf.keyParam >= len(c.Call.Args) {
+		return false
+	}
+	if f, _ := loadedField(c.Call.Args[mf.sliceParam]); f != cs.SortedKeys && f != cs.sortedKeys {
+		return false
+	}
+	// flag == missVal  <=>  cond == (missVal != neg)
+	missOnTrue := mf.missVal != neg
+	missSucc := from.Succs[1]
+	if missOnTrue {
+		missSucc = from.Succs[0]
+	}
+	return to == missSucc && cs.presenceKnown(from, c.Call.Args[mf.keyParam])
 }
